@@ -104,3 +104,21 @@ Definition gfcase_ok (E : cenv) (c : ugf QC * gexpected) : bool :=
   | Err e, GExn e' => exn_eqb e e'
   | _, _ => false
   end.
+
+(* ---- blocked operators: the same interpreter over the blocked tables; ids of the environment stand for space lists ---- *)
+Definition bb_weak (E : cenv) (e : uexp QC) : res (val QC) :=
+  uweak QC qc0 qc1 qcadd qcmul qcopp qcinv (table_of E (ce_invmass E)) (table_of E (ce_mass E)) (atoms_of E)
+        (bd_strong BBD) BBD blocked_classes e.
+Definition bb_strong (E : cenv) (e : uexp QC) : res (val QC) :=
+  bind (elab QC qc0 qc1 qcopp qcinv BBD blocked_classes e)
+       (strong QC qc0 qc1 qcadd qcmul qcopp qcinv (table_of E (ce_invmass E)) (table_of E (ce_mass E)) (atoms_of E) (bd_strong BBD)).
+Definition bb_apply (E : cenv) (e : uexp QC) (coef : list QC) : res (val QC) :=
+  bind (elab QC qc0 qc1 qcopp qcinv BBD blocked_classes e) (fun o =>
+  bind (apply_op QC qc0 qc1 qcadd qcmul qcopp qcinv (table_of E (ce_invmass E)) (table_of E (ce_mass E)) (atoms_of E)
+                 (bd_strong BBD) BBD o
+                 {| g_space := O; g_dual := O; g_rep := Primal (mat_of (map (fun x => [x]) coef)) |})
+       (fun g => match g_rep g with DualRep p => Ok (VM p) | Primal p => Ok (VM p) end)).
+(* what: 0 weak form, 1 strong form, 2 applied to a packed coefficient vector *)
+Definition bbcase_ok (E : cenv) (c : nat * uexp QC * list QC * expected) : bool :=
+  let '(what, e, coef, x) := c in
+  res_ok (match what with O => bb_weak E e | S O => bb_strong E e | _ => bb_apply E e coef end) x.
